@@ -76,7 +76,7 @@ struct C17 : Prop {
 		int grid = 5000, maxt = 1;
 		for (int rep = 0, nrep = (int) r.range(1, thorough ? 4 : 2); rep < nrep; rep++) {
 			J ph = J::obj(); J evs = J::arr();
-			int n = (int) r.range(4, thorough ? 40 : 20), gap = (int) r.range(1, 3) * grid, t = 0;
+			int n = (int) r.range(4, thorough ? 40 : 20), gap = (r.chance(600) ? 1 : (int) r.range(2, 3)) * grid, t = 0;
 			for (int i = 0; i < n; i++) { J e = (i & 1) ? h.b : h.a; t += gap; e.set("at_us", t); evs.push(e); }
 			ph.set("bus", evs);
 			int nt = (int) r.range(1, 3); maxt = std::max(maxt, nt);
@@ -86,7 +86,7 @@ struct C17 : Prop {
 				{ J s = J::obj(); s.set("op", "sleep"); s.set("us", (int) r.range(1, 3) * grid); ops.push(s); }
 				for (int i = 0, no = (int) r.range(3, thorough ? 30 : 16); i < no; i++) {
 					if (r.chance(750)) ops.push(getr("hot")); else { J g = J::obj(); g.set("op", "getr"); g.set("fn", "state"); g.set("s", J::arr()); g.set("i", J::arr()); g.set("tag", "hot"); ops.push(g); }
-					if (r.chance(600)) { J s = J::obj(); s.set("op", "sleep"); s.set("us", (int) r.range(1, 2) * grid); ops.push(s); }
+					if (r.chance(350)) { J s = J::obj(); s.set("op", "sleep"); s.set("us", (int) r.range(1, 2) * grid); ops.push(s); }     // (batches of calls at one grid instant)
 				}
 				tasks.push(ops);
 			}
